@@ -42,6 +42,16 @@
 #define VERIF_ASAN 0
 #endif
 
+#if VERIF_TSAN
+extern "C" {
+int __tsan_get_report_data(void* report, const char** description, int* count, int* stack_count,
+                           int* mop_count, int* loc_count, int* mutex_count, int* thread_count,
+                           int* unique_tid_count, void** sleep_trace, unsigned long trace_size);
+int __tsan_get_report_mop(void* report, unsigned long idx, int* tid, void** addr, int* size,
+                          int* write, int* atomic, void** trace, unsigned long trace_size);
+}
+#endif
+
 namespace verif {
 
 // ---------------------------------------------------------------- RNG
@@ -616,16 +626,6 @@ inline void pin_process_to_cpus(unsigned k) {
 }
 
 // ---------------------------------------------------------------- TSan classifier
-#if VERIF_TSAN
-extern "C" {
-int __tsan_get_report_data(void* report, const char** description, int* count, int* stack_count,
-                           int* mop_count, int* loc_count, int* mutex_count, int* thread_count,
-                           int* unique_tid_count, void** sleep_trace, unsigned long trace_size);
-int __tsan_get_report_mop(void* report, unsigned long idx, int* tid, void** addr, int* size,
-                          int* write, int* atomic, void** trace, unsigned long trace_size);
-}
-#endif
-
 struct PayloadRegion {
   uintptr_t lo, hi;
   char name[64];
